@@ -178,7 +178,12 @@ class Interp:
         m = getattr(self, "st_" + type(st).__name__, None)
         if m is None:
             raise Unsupported("statement %s (line %s)" % (type(st).__name__, getattr(st, "lineno", "?")))
-        return m(st, frame, ctx)
+        try:
+            return m(st, frame, ctx)
+        except PyRaise as e:
+            if not hasattr(e, "where"):
+                e.where = "%s:%s" % (getattr(frame.module, "name", "?"), getattr(st, "lineno", "?"))
+            raise
 
     def st_Expr(self, st, frame, ctx):
         if isinstance(st.value, ast.Constant):
@@ -996,6 +1001,8 @@ class Interp:
             if op == "!=":
                 return a is not b
             raise_("TypeError", "ordering not supported between objects")
+        if isinstance(a, MaskedSel) or isinstance(b, MaskedSel):
+            return arrays.masked_compare(ctx, op, a, b)
         if arrays.is_arr(a) or arrays.is_arr(b):
             return arrays.arr_cmp(ctx, op, a, b)
         if isinstance(a, absarr.AbsArr) or isinstance(b, absarr.AbsArr):
@@ -1083,8 +1090,23 @@ class Interp:
             return z_or(*rs) if rs else False
         if isinstance(container, symlist.SymList):
             return container.contains(ctx, x)
+        if isinstance(container, MaskedSel):
+            if not is_scalar(x):
+                raise Unsupported("membership of a non-scalar in a masked selection")
+            k = ctx.fresh("member_idx", I)
+            b = ctx.fresh("member", z3.BoolSort())
+            ctx.assume(b == z3.Exists([k], z3.And(k >= 0, k < lift(container.arr.n), as_bool(container.mask.elem(k)),
+                                                  as_bool(num_cmp("==", container.arr.elem(k), x)))))
+            return b
         if isinstance(container, SymArr):
-            raise Unsupported("membership test on a symbolic array")
+            # x in arr  <=>  exists an index holding x
+            if not is_scalar(x):
+                raise Unsupported("membership of a non-scalar in a symbolic array")
+            k = ctx.fresh("member_idx", I)
+            e = container.elem(k)
+            b = ctx.fresh("member", z3.BoolSort())
+            ctx.assume(b == z3.Exists([k], z3.And(k >= 0, k < lift(container.n), as_bool(num_cmp("==", e, x)))))
+            return b
         if isinstance(container, Obj):
             m, _ = container.cls.lookup("__contains__")
             if m is not None:
@@ -1188,6 +1210,14 @@ class Interp:
         if isinstance(o, dict):
             o[self.hashable(idx)] = v
             return
+        if isinstance(o, MaskedSel):
+            # sel[np.where(cond_on_sel)[0]] = scalar : update the selected elements that satisfy the condition
+            if type(idx).__name__ == "WhereIdx" and isinstance(idx.mask, MaskedSel) and is_scalar(v) \
+                    and arrays.same_mask(ctx, idx.mask.mask, o.mask):
+                old_e, cond_e = o.arr.elem, idx.mask.arr.elem
+                o.arr.elem = lambda i: z_ite(as_bool(cond_e(i)), v, old_e(i))
+                return
+            raise Unsupported("assignment into a masked selection with %r" % (idx,))
         if arrays.is_arr(o):
             return arrays.arr_setitem(ctx, o, idx, v)
         if isinstance(o, symlist.SymList):
@@ -1237,6 +1267,15 @@ class Interp:
                     return self.ev(node.elt, cf, ctx)
                 return SymArr(it.n, elem)
             from . import symlist
+            r = symlist.sym_length_and_elem(self, it, ctx) if isinstance(it, (symlist.Zip, symlist.Enumerate)) else None
+            if r is not None:
+                n_, el_ = r
+
+                def elem2(i):
+                    cf = Frame(frame.module, parent=frame, func=frame.func)
+                    self.assign(g.target, el_(i), cf, ctx)
+                    return self.ev(node.elt, cf, ctx)
+                return SymArr(n_, elem2)
             if isinstance(it, symlist.SymList) and not isinstance(it.n, int):
                 return symlist.comprehension(self, node, frame, ctx, it)
             out = []
@@ -1250,6 +1289,19 @@ class Interp:
         return out
 
     def ex_GeneratorExp(self, node, frame, ctx):
+        from . import symlist
+        if len(node.generators) == 1 and not node.generators[0].ifs:
+            g = node.generators[0]
+            itv = self.ev(g.iter, frame, ctx)
+            r = symlist.sym_length_and_elem(self, itv, ctx)
+            if r is not None:
+                n, el = r
+
+                def item(k):
+                    cf = Frame(frame.module, parent=frame, func=frame.func)
+                    self.assign(g.target, el(k), cf, ctx)
+                    return self.ev(node.elt, cf, ctx)
+                return symlist.SymGen(n, item)
         return GenVal(self.ex_ListComp(node, frame, ctx))
 
     def ex_SetComp(self, node, frame, ctx):
@@ -1484,6 +1536,12 @@ class Interp:
         from . import builtins_
         if isinstance(o, Obj):
             return self.obj_getattr(o, name, ctx)
+        if isinstance(o, MaskedSel):
+            if name == "shape":
+                return (arrays.count_term(ctx, o.mask),)
+            if name == "size":
+                return arrays.count_term(ctx, o.mask)
+            raise Unsupported("attribute %r of a masked selection" % name)
         if isinstance(o, ModuleVal):
             if not o.loaded and o.kind == "repo":
                 self.load_module(o.name, ctx)
